@@ -770,7 +770,100 @@ func (G *gen) messages(fx *fixture) {
 			G.c.Sample(cs)
 		}
 	}
+	G.syncing(fx, ms)
 	time.Sleep(50 * time.Millisecond) // let the node's own queues drain before the next section touches the pools
+}
+
+// syncing: the same routes while the node is SYNCING (blockchain.StartSync -> txpool.StartSync: incoming transactions are
+// deferred instead of validated): every tx type x {own coinbase, another known sender, unknown sender, garbage
+// signature} as NewTx frames, and a sample of the proposals / votes / blocks / flips / flip keys / key packages / block
+// ranges of the synced stream, through the real handler.
+func (G *gen) syncing(fx *fixture, ms []msgCase) {
+	if G.stop {
+		return
+	}
+	n, w, r := fx.n, fx.w, G.r
+	n.Chain.StartSync()
+	defer func() {
+		// StopSync replays the deferred transactions into the pool; under the guard like everything else
+		cs := c12case{Section: "syncstop", State: fx.kind, Seed: fx.seed}
+		res := G.g.run(func() string { n.Chain.StopSync(); return "ok" })
+		G.c.Rep.Evaluations++
+		if res.Panic != "" {
+			G.c.Fail("C12:sync-stop-panic:"+res.Site, fmt.Sprintf("panic %q at %s (%s) when the deferred transactions were replayed, state %s", res.Panic, res.Site, res.Line, fx.kind), cs)
+		} else if res.Hang {
+			G.c.Fail("C12:hang:sync-stop", "StopSync did not return", cs)
+			G.stop = true
+		}
+	}()
+	if !n.Pool.IsSyncing() {
+		G.c.Hit("syncing:not-entered")
+		return
+	}
+	ep := n.App.State.Epoch()
+	pays := payloadFamilies(fx, r)
+	run := func(m msgCase, i int) {
+		frame := protocol.VerifC12WrapMsg(m.code, m.payload, i%2 == 0)
+		cs := c12case{Section: "msg", State: fx.kind, Seed: fx.seed, Hex: hex.EncodeToString(frame), Batch: m.batch, Twice: m.twice, Syncing: true, Note: "syncing:" + m.what}
+		G.exec(fx, cs, len(frame), m.op, allocBound(effectiveLen(frame)), nil)
+		kind := m.what
+		if j := strings.Index(kind, ":"); j > 0 {
+			kind = kind[:j]
+		}
+		G.c.Hit("msg-syncing:" + kind)
+		G.c.Distinct("msg-syncing:" + fx.kind + ":" + m.op + ":" + m.what)
+	}
+	i := 0
+	for typ := uint16(0); typ <= 0x18; typ++ {
+		for _, signer := range []string{"own-coinbase", "other", "unknown", "garbage-sig", "no-sig"} {
+			payload := pays[r.Intn(len(pays)-3)]
+			if typ >= types.SubmitAnswersHashTx && typ <= types.EvidenceTx && r.Intn(2) == 0 {
+				payload = make([]byte, 32)
+			}
+			tx := &types.Transaction{Type: typ, AccountNonce: 1, Epoch: ep, Payload: payload, MaxFee: dna(60)}
+			if r.Intn(2) == 0 {
+				tx.To = &w.Addrs[2]
+			}
+			switch signer {
+			case "own-coinbase":
+				tx.AccountNonce = n.App.State.GetNonce(w.Addrs[0]) + 1
+				tx, _ = types.SignTx(tx, w.Keys[0])
+			case "other":
+				ki := 1 + r.Intn(nUsers)
+				tx.AccountNonce = n.App.State.GetNonce(w.Addrs[ki]) + 1
+				tx, _ = types.SignTx(tx, w.Keys[ki])
+			case "unknown":
+				kb := make([]byte, 32)
+				r.Read(kb)
+				kb[0] &= 0x7f
+				if k, err := crypto.ToECDSA(kb); err == nil {
+					tx, _ = types.SignTx(tx, k)
+				}
+			case "garbage-sig":
+				tx.Signature = make([]byte, 65)
+				r.Read(tx.Signature)
+			}
+			run(msgCase{code: protocol.NewTx, payload: mustBytes(tx.ToBytes()), what: fmt.Sprintf("newTx:%s:%s", txName(typ), signer), op: "msg newTx 0"}, i)
+			i++
+		}
+	}
+	// a sample of every other kind of the synced stream, now while syncing
+	perKind := map[string]int{}
+	for _, m := range ms {
+		kind := m.what
+		if j := strings.Index(kind, ":"); j > 0 {
+			kind = kind[:j]
+		}
+		if kind == "undecodable" || kind == "newTx" {
+			continue
+		}
+		perKind[kind]++
+		if perKind[kind] > 12 && perKind[kind]%9 != 0 {
+			continue
+		}
+		run(m, i)
+		i++
+	}
 }
 
 // effectiveLen: the size the frame legitimately decompresses to (bounded by the frame oracle's cap), else its length.
